@@ -183,7 +183,10 @@ func main() {
 	}
 	o := &Out{area: area, ops: bufio.NewWriterSize(fo, 1<<20), impl: bufio.NewWriterSize(fi, 1<<20),
 		Stats: map[string]int{}, seen: map[string]bool{}}
-	r := &Rng{s: seed*0x9E3779B97F4A7C15 + 0x1234567}
+	// seeds k and k+1 must not give shifted copies of one stream: hash the seed first
+	sm := &Rng{s: seed ^ 0xD6E8FEB86659FD93}
+	sm.Next()
+	r := &Rng{s: sm.Next() ^ (seed << 32)}
 	f.Gen(o, tier, r)
 	o.ops.Flush()
 	o.impl.Flush()
